@@ -58,7 +58,7 @@ func traverse(context Context, matchingNode *CandidateNode, operation *Operation
 
 	case SequenceNode:
 		log.Debug("its a sequence of %v things!", len(matchingNode.Content))
-		return traverseArray(matchingNode, operation, operation.Preferences.(traversePreferences))
+		return traverseArray(matchingNode, operation, operation.Preferences.(traversePreferences), context.DontAutoCreate)
 
 	case AliasNode:
 		log.Debug("its an alias!")
@@ -131,6 +131,10 @@ func traverseNodesWithArrayIndices(context Context, indicesToTraverse []*Candida
 func traverseArrayIndices(context Context, matchingNode *CandidateNode, indicesToTraverse []*CandidateNode, prefs traversePreferences) (*list.List, error) { // call this if doc / alias like the other traverse
 	if matchingNode.Tag == "!!null" {
 		log.Debugf("OperatorArrayTraverse got a null - turning it into an empty array")
+		if context.DontAutoCreate {
+			// read-only: work on a stand-in so the document is not modified
+			matchingNode = &CandidateNode{Kind: ScalarNode, Tag: "!!null", Value: matchingNode.Value, Parent: matchingNode.Parent, Key: matchingNode.Key}
+		}
 		// auto vivification
 		matchingNode.Tag = ""
 		matchingNode.Kind = SequenceNode
@@ -144,7 +148,7 @@ func traverseArrayIndices(context Context, matchingNode *CandidateNode, indicesT
 		matchingNode = matchingNode.Alias
 		return traverseArrayIndices(context, matchingNode, indicesToTraverse, prefs)
 	} else if matchingNode.Kind == SequenceNode {
-		return traverseArrayWithIndices(matchingNode, indicesToTraverse, prefs)
+		return traverseArrayWithIndices(matchingNode, indicesToTraverse, prefs, context.DontAutoCreate)
 	} else if matchingNode.Kind == MappingNode {
 		return traverseMapWithIndices(context, matchingNode, indicesToTraverse, prefs)
 	}
@@ -171,7 +175,7 @@ func traverseMapWithIndices(context Context, candidate *CandidateNode, indices [
 	return matchingNodeMap, nil
 }
 
-func traverseArrayWithIndices(node *CandidateNode, indices []*CandidateNode, prefs traversePreferences) (*list.List, error) {
+func traverseArrayWithIndices(node *CandidateNode, indices []*CandidateNode, prefs traversePreferences, readOnly bool) (*list.List, error) {
 	log.Debug("traverseArrayWithIndices")
 	var newMatches = list.New()
 	if len(indices) == 0 {
@@ -195,6 +199,14 @@ func traverseArrayWithIndices(node *CandidateNode, indices []*CandidateNode, pre
 		}
 		indexToUse := index
 		contentLength := len(node.Content)
+		if readOnly && contentLength <= index {
+			// read-only: answer null without padding the sequence
+			valueNode := createScalarNode(nil, "null")
+			valueNode.Parent = node
+			valueNode.Key = createScalarNode(index, fmt.Sprintf("%v", index))
+			newMatches.PushBack(valueNode)
+			continue
+		}
 		for contentLength <= index {
 			if contentLength == 0 {
 				// default to nice yaml formatting
@@ -314,8 +326,8 @@ func traverseMergeAnchor(newMatches *orderedmap.OrderedMap, value *CandidateNode
 	return nil
 }
 
-func traverseArray(candidate *CandidateNode, operation *Operation, prefs traversePreferences) (*list.List, error) {
+func traverseArray(candidate *CandidateNode, operation *Operation, prefs traversePreferences, readOnly bool) (*list.List, error) {
 	log.Debug("operation Value %v", operation.Value)
 	indices := []*CandidateNode{{Value: operation.StringValue}}
-	return traverseArrayWithIndices(candidate, indices, prefs)
+	return traverseArrayWithIndices(candidate, indices, prefs, readOnly)
 }
